@@ -248,6 +248,58 @@ def eval_pair(ctx, reg_keys, need_n, n, x, y, tags, keys=None, tagit=True):
     return a, b, obs
 
 
+def lld_domain_probe(ctx, need_n):
+    """ll_dirichlet on the whole input class of the property (real values, empty rows), not only on count data.  Theorem C13_ll_dirichlet
+    (T_sparse_lld.v) proves sparse = dense for non-empty rows whose stored values exceed 0.9 and whose coordinate products are 0 or exceed
+    0.9 (count data: C13_ll_dirichlet_counts); C13_ll_dirichlet_refuted_small / _empty refute it outside (the dense text tests `> 0.9`
+    where the sparse text tests `!= 0`; the dense text divides by the row totals).  A disagreement INSIDE the theorem's domain is a
+    violation; the two refuted classes are recorded known findings, re-observed on every run."""
+    if "ll_dirichlet" not in S.sparse_named_distances:
+        return
+    rs = np.random.RandomState(ctx.seed % 1000 + 3)
+    pairs = [(np.array([0.5, 0.0]), np.array([0.0, 1.0])),            # the Coq witness lld_wit_a / lld_wit_b
+             (np.array([0.0]), np.array([1.0]))]                      # lld_wit_c: one empty row
+    for _ in range(10):
+        d = int(rs.randint(2, 7))
+        pool = [0.0, 0.0, 0.3, 0.5, 0.8, 1.0, 2.0, 3.0, 1.5]
+        pairs.append((rs.choice(pool, size=d), rs.choice(pool, size=d)))
+    for _ in range(6):                                                # inside the theorem's domain: values >= 1 (not only integers)
+        d = int(rs.randint(2, 7))
+        x = np.where(rs.rand(d) < 0.5, 0.0, 1.0 + rs.rand(d) * 3); y = np.where(rs.rand(d) < 0.5, 0.0, 1.0 + rs.rand(d) * 3)
+        if x.sum() == 0: x[0] = 1.25
+        if y.sum() == 0: y[-1] = 2.5
+        pairs.append((x, y))
+    for x, y in pairs:
+        x = x.astype(np.float32); y = y.astype(np.float32)
+        a, b = to_sparse(x), to_sparse(y)
+        n = x.shape[0]
+        empty = a[0].size == 0 or b[0].size == 0
+        big = bool(np.all(a[1] > 0.9) and np.all(b[1] > 0.9))
+        prod = x.astype(np.float64) * y.astype(np.float64)
+        prod_ok = bool(np.all((prod == 0) | (prod > 0.9)))
+        inside = (not empty) and big and prod_ok
+        cls = "inside_the_theorems_domain" if inside else ("empty_row" if empty else "stored_value_or_product_at_most_0.9")
+        desc = dict(metric="ll_dirichlet", n_features=n, x=x, y=y, input_class=cls)
+        ctx.evaluations += 1
+        ctx.tag(("lld_domain", x.tobytes(), y.tobytes()), ["ll_dirichlet_" + cls])
+        try:
+            sv = call_sparse("ll_dirichlet", need_n, a, b, n)
+        except Exception as e:
+            ctx.fail("sparse_ll_dirichlet:raises:" + cls, "%s: %s" % (type(e).__name__, e), desc); continue
+        try:
+            dv = call_dense("ll_dirichlet", x, y, None)
+        except ZeroDivisionError as e:
+            if empty:
+                ctx.fail("ll_dirichlet:dense_raises_where_sparse_returns:empty_row", "dense ll_dirichlet raises ZeroDivisionError, sparse_ll_dirichlet returns %r" % sv, dict(desc, sparse=sv))
+            else:
+                ctx.fail("ll_dirichlet:dense_raises:" + cls, "ZeroDivisionError: %s" % e, desc)
+            continue
+        except Exception as e:
+            ctx.fail("ll_dirichlet:dense_raises:" + cls, "%s: %s" % (type(e).__name__, e), desc); continue
+        if not values_agree("ll_dirichlet", sv, dv):
+            ctx.fail("sparse_ll_dirichlet:differs_from_dense:" + cls, "sparse %r vs dense %r" % (sv, dv), dict(desc, sparse=sv, dense=dv))
+
+
 def helper_checks(ctx, n, x, y, hterms, hcases, iterms, icases):
     a, b = to_sparse(x), to_sparse(y)
     desc = dict(n_features=n, x=x, y=y)
@@ -379,9 +431,11 @@ def run(ctx):
     lres = link.check(ctx, "sparse", LINKED, NOT_TRANSLATED)
     # capstone corollaries (coq/link/K_sparse.v): the property statement between the two translated sources -- sparse metric of the current
     # sparse.py on canonical rows = dense metric of the current distances.py on the densified vectors (euclidean, manhattan, chebyshev,
-    # hamming, jaccard, cosine, correlation; C13_src_correlation_model: the hypotheses on arr_union / arr_intersect hold for the model's merges)
+    # hamming, jaccard, cosine, correlation; C13_src_correlation_model: the hypotheses on arr_union / arr_intersect hold for the model's merges;
+    # C13_src_ll_dirichlet: on rows without empty row, stored values > 0.9 and coordinate-wise products 0 or > 0.9 -- the class of
+    # P_C13.C13_ll_dirichlet; C13_src_ll_dirichlet_counts: count data (stored values >= 1) is in that class)
     for thm in ("C13_src_euclidean", "C13_src_manhattan", "C13_src_chebyshev", "C13_src_hamming", "C13_src_jaccard", "C13_src_cosine",
-                "C13_src_correlation", "C13_src_correlation_model"):
+                "C13_src_correlation", "C13_src_correlation_model", "C13_src_ll_dirichlet", "C13_src_ll_dirichlet_counts"):
         ob = "link:sparse:" + thm
         ctx.obligations.append(ob)
         bad = [a for a in lres.axioms.get(thm, []) if a not in link.coqrun.ALLOWED_AXIOMS and not ctx._primitive(a)]
@@ -421,8 +475,10 @@ def run(ctx):
         if k not in D.named_distances:
             ctx.broken.append("sparse registry key %r has no dense counterpart in named_distances" % k)
     need_n = set(need)
-    ctx.partial += ["ll_dirichlet: the translated source is linked (over R) to the model M_sparse_lld.sparse_ll_dirichlet, but `sparse = dense on the densified rows` is not proved "
-                    "for it (log-Gamma approximations); compared sparse-vs-dense by the oracle on count data with non-empty rows only",
+    ctx.partial += ["ll_dirichlet: `sparse = dense on the densified rows` is proved (P_C13.C13_ll_dirichlet, K_sparse.C13_src_ll_dirichlet between the two translated sources, over R) "
+                    "only for rows without an empty row whose stored values are > 0.9 and whose coordinate-wise products are 0 or > 0.9 (count data); outside that class the two "
+                    "texts differ (C13_ll_dirichlet_refuted_small: rows (0.5, 0) / (0, 1) give 0 vs sqrt(2 log_single_beta(0.5)); C13_ll_dirichlet_refuted_empty: one empty row gives 1e8 vs "
+                    "a division by the zero total); the oracle compares sparse-vs-dense on count data with non-empty rows only",
                     "arr_union / arr_intersect are modelled as the two-way merge they compute on sorted index arrays (np.sort + adjacent filter is not modelled); "
                     "compared exactly on canonical inputs every run",
                     "theorems are over R: float32 storage of intermediate arrays (sparse_sum output, shifted data) is observed within the tolerance, not modelled",
@@ -510,6 +566,7 @@ def run(ctx):
         if not ok:
             ctx.fail("UMAP.fit:csr_vs_dense_graph:%s" % fit_class(metric, X), why, desc)
     # the one registry key pynndescent has no sparse twin for: UMAP hands umap.sparse's function to the NN search (umap_.py:2634-2639)
+    lld_domain_probe(ctx, need_n)
     if ctx.tier != "quick" and "ll_dirichlet" in reg_keys:
         X = gen_matrix(rng, npr, "ll_dirichlet", 0)
         X = np.vstack([X, X[: min(8, len(X))] * 2.0]).astype(np.float32)           # proportional rows (distance 0)
